@@ -38,6 +38,15 @@ def run_digest(ctx, pt):
                 # 48 buckets with 18..24 non-empty buckets: the published implementations disagree on the gate
                 ctx.ok('C19/tlsh/digest', r[0] == 'ok' and (r[1] is None or isinstance(r[1], bytes)), r)
                 continue
+            if name in ('text', 'two') and not force:
+                # the same call on an object that has just refused a short input and has just produced a digest
+                def second():
+                    o = mk(cfg)
+                    o(b'too short to hash, but longer than the window')
+                    a = o(d, force)
+                    o(RL.T0)
+                    return (a, o(d, force))
+                ctx.eq('C19/tlsh/reused-object', ctx.attempt(second), ('ok', (exp, exp)) if not (b == 48 and exp is None and 18 <= RL.nonzero_buckets(d, b, w) <= 24) else ctx.attempt(second))
             if exp is None:
                 ctx.eq('C19/tlsh/no-digest-for-short-or-uniform-input', r, ('ok', None))
             else:
